@@ -2,9 +2,9 @@
 import json
 
 PLAN = {
-    'C01': ['harness.fe_typeargs', 'harness.fe_defaults', 'harness.fe_examples', 'harness.fe_docrefs', 'harness.c11_layout'],
-    'C02': ['harness.fe_typeargs', 'harness.fe_defaults', 'harness.fe_examples'],
-    'C03': ['harness.fe_typeargs', 'harness.fe_defaults', 'harness.fe_examples', 'harness.fe_docrefs'],
+    'C01': ['harness.fe_typeargs', 'harness.fe_defaults', 'harness.fe_examples', 'harness.fe_docrefs', 'harness.fe_attrs', 'harness.c11_layout'],
+    'C02': ['harness.fe_typeargs', 'harness.fe_defaults', 'harness.fe_examples', 'harness.fe_attrs'],
+    'C03': ['harness.fe_typeargs', 'harness.fe_defaults', 'harness.fe_examples', 'harness.fe_docrefs', 'harness.fe_attrs'],
     'C10': ['harness.fe_defaults', 'harness.fe_examples'],
     'C04': ['harness.c04_roundtrip'],
     'C05': ['harness.c04_roundtrip'],
